@@ -55,3 +55,43 @@ func TestDumpScenario(t *testing.T) {
 	}
 	kit.WriteReplay(p, sc, os.Getenv("VERIF_DUMP_OUT"))
 }
+
+// TestRepeat runs scenario VERIF_DUMP_I of property VERIF_REPEAT several times in this
+// process and prints the first trace line that differs between runs.
+func TestRepeat(t *testing.T) {
+	id := os.Getenv("VERIF_REPEAT")
+	if id == "" {
+		t.Skip()
+	}
+	kit.T = t
+	p := kit.Lookup(id)
+	if p.Warmup {
+		kit.Run(p, p.WarmupScenario(), &kit.Trace{})
+	}
+	for i := kit.EnvInt("VERIF_DUMP_I", 0); i < kit.EnvInt("VERIF_DUMP_I", 0)+kit.EnvInt("VERIF_REPEAT_N", 10); i++ {
+		var ref []string
+		for rep := 0; rep < 4; rep++ {
+			sc := p.Gen(kit.NewRNG(kit.ScenarioSeed(1, id, i)), "quick")
+			tr := &kit.Trace{Keep: true}
+			kit.Run(p, sc, tr)
+			tr.Hash()
+			if ref == nil {
+				ref = tr.Lines
+				continue
+			}
+			for k := 0; k < len(ref) || k < len(tr.Lines); k++ {
+				a, b := "<none>", "<none>"
+				if k < len(ref) {
+					a = ref[k]
+				}
+				if k < len(tr.Lines) {
+					b = tr.Lines[k]
+				}
+				if a != b {
+					t.Logf("scenario %d rep %d line %d:\n  A: %s\n  B: %s", i, rep, k, a, b)
+					break
+				}
+			}
+		}
+	}
+}
